@@ -45,7 +45,7 @@ _COLLECT = []
 
 @st.composite
 def strategy_(draw):
-    case = draw(S.pipeline_case(WEIGHTS, vary=('sep', 'base', 'msa'), p_default_prms=0.4, exclude=False))
+    case = draw(S.pipeline_case(WEIGHTS, vary=('sep', 'base', 'msa'), p_default_prms=0.4))
     if draw(st.integers(0, 19)) == 0:
         case = {'cls': 'demo', 'rows': None, 'prms': {'MSA': 10000}}
     case['rng'] = [draw(st.integers(0, 2 ** 32 - 1)), draw(st.integers(0, 50)), draw(st.integers(0, 3))]
